@@ -45,9 +45,8 @@ theorem lookup_mem {k c : Nat} : ∀ {m : List (Nat × Nat)}, m.lookup k = some 
 /-- `wfGuards`, field by field -/
 structure WF (G : Guards) : Prop where
   lFnf : Exc.caughtBy G.l.caught .FileNotFoundError = true
-  typeChecked : G.l.typeChecked = true
-  typeCheckInTry : G.l.typeCheckInTry = true
-  lTypeExc : Exc.caughtBy G.l.caught G.l.typeExc = true
+  typeCheckInTry : G.l.typeChecked = true → G.l.typeCheckInTry = true
+  lTypeExc : G.l.typeChecked = true → Exc.caughtBy G.l.caught G.l.typeExc = true
   fpChecked : G.l.fpChecked = true
   staleClears : G.l.staleClearsLoaded = true
   handlerClears : G.l.handlerClearsLoaded = true
@@ -55,26 +54,38 @@ structure WF (G : Guards) : Prop where
   tolerates : G.l.handlerRemoves = true → Exc.caughtBy G.l.handlerRemoveTolerates .FileNotFoundError = true
   lockWrite : G.w.lockWrite = true
   allInTry : G.w.allInTry = true
-  mTypeChecked : G.w.mergesExisting = true → G.w.mergeTypeChecked = true
-  mTypeExc : G.w.mergesExisting = true → Exc.caughtBy G.w.caught G.w.mergeTypeExc = true
-  mFnf : G.w.mergesExisting = true → Exc.caughtBy G.w.caught .FileNotFoundError = true
-  mStale : G.w.mergesExisting = true → G.l.removeStale = true
+  wFnf : Exc.caughtBy G.w.caught .FileNotFoundError = true
+  mTypeExc : G.w.mergesExisting = true → G.w.mergeTypeChecked = true →
+    Exc.caughtBy G.w.caught G.w.mergeTypeExc = true
 
 theorem WF.of {G : Guards} (hG : wfGuards G = true) : WF G := by
-  simp [wfGuards, Bool.and_eq_true, Bool.or_eq_true] at hG
-  obtain ⟨⟨⟨⟨⟨⟨⟨⟨⟨⟨⟨h1, h2⟩, h3⟩, h4⟩, h5⟩, h6⟩, h7⟩, h8⟩, h9⟩, h10⟩, h11⟩, h12⟩ := hG
-  refine ⟨h1, h2, h3, h4, h5, h6, h7, ?_, ?_, h10, h11, ?_, ?_, ?_, ?_⟩
-  · intro h; simpa [h] using h8
-  · intro h; simpa [h] using h9
-  · intro h; simp [h] at h12; exact h12.1.1.1
-  · intro h; simp [h] at h12; exact h12.1.1.2
-  · intro h; simp [h] at h12; exact h12.1.2
-  · intro h; simp [h] at h12; exact h12.2
+  unfold wfGuards at hG
+  simp only [Bool.and_eq_true, Bool.or_eq_true, Bool.not_eq_true', List.all_eq_true] at hG
+  obtain ⟨⟨⟨⟨⟨⟨⟨⟨⟨⟨h1, h2⟩, h3⟩, h4⟩, h5⟩, h6⟩, h7⟩, h8⟩, h9⟩, h10⟩, h11⟩ := hG
+  have hmem : Exc.FileNotFoundError ∈ ioExcs := by simp [ioExcs]
+  refine ⟨h1 _ hmem, ?_, ?_, h3, h4, h5, ?_, ?_, h8, h9, h10 _ hmem, ?_⟩
+  · intro h; rcases h2 with h2 | h2
+    · rw [h] at h2; cases h2
+    · exact h2.1
+  · intro h; rcases h2 with h2 | h2
+    · rw [h] at h2; cases h2
+    · exact h2.2
+  · intro h; rcases h6 with h6 | h6
+    · rw [h] at h6; cases h6
+    · exact h6
+  · intro h; rcases h7 with h7 | h7
+    · rw [h] at h7; cases h7
+    · exact h7
+  · intro h h'; rcases h11 with h11 | h11
+    · rw [h] at h11; cases h11
+    · rcases h11.1.1 with h12 | h12
+      · rw [h'] at h12; cases h12
+      · exact h12
 
 theorem valid_written {env : Env} {measured : List Exc} (hP : PickleOK env measured) (p : Proc)
     (hmem : ∀ e ∈ p.mem, EntOK env e) (hfp : p.selfFp = some (env.fpOf (keys p.mem))) :
     Valid env (env.pickle (written env p)) :=
-  ⟨written env p, hP.roundtrip _, rfl, hmem, by simp [written, hfp]⟩
+  ⟨written env p, hP.roundtrip _, hmem, by simp [written, hfp]⟩
 
 /-- `open('wb')` → `pickle.dump` → release → back to the queries -/
 theorem write_fin {env : Env} {G : Guards} {measured : List Exc} {asked : List Nat}
@@ -121,15 +132,23 @@ theorem merge_fin {env : Env} {G : Guards} {measured : List Exc} {asked : List N
         FileOK env sh'.file → Fin env G asked sh' (runQueries env G p' rest)) :
     Fin env G asked sh p := by
   have hlw := hG.lockWrite
-  rcases hfile with hf | ⟨b, hf, v, hu, hty, hents, hfpv⟩
+  rcases hfile with hf | ⟨b, hf, v, hu, hents, hfpv⟩
   · apply Fin_step; simp [pstep, hpc, hf, leaveWrite, hlw]
-    apply Fin_step; simp [pstep, writerRaise, hG.allInTry, hG.mFnf hm]
+    apply Fin_step; simp [pstep, writerRaise, hG.allInTry, hG.wFnf]
     rw [htodo]
     exact hK _ _ rfl hmem rfl (Or.inl hf)
   · apply Fin_step; simp [pstep, hpc, hf]
-    apply Fin_step; simp [pstep, hu, hty]
-    refine write_fin hG hP _ _ rest rfl htodo ?_ rfl hK
-    exact merged_ok _ v hmem hents
+    by_cases hty : (G.w.mergeTypeChecked && v.ty != env.expectedTy) = true
+    · -- a valid file of another class: the type check raises, the writer's `try` catches, the file stays
+      have hmc : G.w.mergeTypeChecked = true := by
+        simp only [Bool.and_eq_true] at hty; exact hty.1
+      apply Fin_step; simp [pstep, hu, hty, leaveWrite, hlw]
+      apply Fin_step; simp [pstep, writerRaise, hG.allInTry, hG.mTypeExc hm hmc]
+      rw [htodo]
+      exact hK _ _ rfl hmem rfl (Or.inr ⟨b, hf, v, hu, hents, hfpv⟩)
+    · apply Fin_step; simp [pstep, hu, hty]
+      refine write_fin hG hP _ _ rest rfl htodo ?_ rfl hK
+      exact merged_ok _ v hmem hents
 
 theorem writer_fin {env : Env} {G : Guards} {measured : List Exc} {asked : List Nat}
     (hG : WF G) (hP : PickleOK env measured)
@@ -281,30 +300,31 @@ theorem checks_fin {env : Env} {G : Guards} {measured : List Exc} {qs : List Nat
     (hl : sh.lock = none) (hfp : p.selfFp = none) (ha : p.answers = []) (ht : p.todo = qs) :
     Fin env G qs sh (loaderChecks env G p) := by
   unfold loaderChecks
-  simp only [hld, hG.typeChecked, hG.typeCheckInTry, hG.fpChecked, hG.staleClears, Bool.true_and, if_true,
-    Bool.not_true, Bool.false_or]
-  by_cases hty : v.ty = env.expectedTy
-  · by_cases hfpv : env.fpOf (keys v.ents) = v.fp
-    · simp only [hty, hfpv, bne_self_eq_false, beq_self_eq_true, if_true, Bool.false_eq_true, if_false]
+  simp only [hld, hG.fpChecked, hG.staleClears, if_true, Bool.not_true, Bool.false_or]
+  by_cases hty : (G.l.typeChecked && v.ty != env.expectedTy) = true
+  · have htc : G.l.typeChecked = true := by
+      simp only [Bool.and_eq_true] at hty; exact hty.1
+    simp only [hty, if_true, hG.typeCheckInTry htc]
+    exact raise_fin hG hP hrep sh p _ (hG.lTypeExc htc) hl hfp ha ht
+  · simp only [hty, Bool.false_eq_true, if_false]
+    by_cases hfpv : env.fpOf (keys v.ents) = v.fp
+    · simp only [hfpv, beq_self_eq_true, if_true]
       refine finish_fin hG hP _ _ hl ha ht ?_ ?_
       · intro v' hv'
         cases (Option.some.inj hv')
-        exact hs hty hfpv
-      · exact Or.inl (Or.inr ⟨b, hfile, v, hu, hty, hs hty hfpv, hfpv⟩)
+        exact hs hfpv
+      · exact Or.inl (Or.inr ⟨b, hfile, v, hu, hs hfpv, hfpv⟩)
     · have h1 : (env.fpOf (keys v.ents) == v.fp) = false := by simpa using hfpv
-      simp only [hty, h1, bne_self_eq_false, Bool.false_eq_true, if_false]
+      simp only [h1, Bool.false_eq_true, if_false]
       by_cases hrs : G.l.removeStale = true
       · simp only [hrs, if_true]
         apply Fin_step
         simp [pstep, hfile]
         exact finish_fin hG hP _ _ hl ha ht (by simp) (Or.inl (Or.inl rfl))
-      · simp only [hrs]
+      · simp only [hrs, Bool.false_eq_true, if_false]
         rcases hrep with ⟨h, _⟩ | ⟨h1, h2⟩
         · exact absurd h hrs
         · exact finish_fin hG hP _ _ hl ha ht (by simp) (Or.inr ⟨h2, hfp, rfl, h1⟩)
-  · have h1 : (v.ty != env.expectedTy) = true := by simpa using hty
-    simp only [h1, if_true]
-    exact raise_fin hG hP hrep sh p _ hG.lTypeExc hl hfp ha ht
 
 /-- `open('rb')` → `pickle.load` → (release) → checks | handler -/
 theorem open_fin {env : Env} {G : Guards} {measured : List Exc} {qs : List Nat}
